@@ -115,10 +115,24 @@ Proof.
 Qed.
 
 (* ------------------------------------------------------------------ python == *)
-Lemma val_eqb_refl v : val_eqb v v = true.
+Lemma val_eqb_refl v : is_scalar v = true -> val_eqb v v = true.
 Proof.
-  destruct v as [b|z|q|s|]; cbn; try reflexivity; try (apply Qeq_bool_iff; reflexivity).
+  destruct v as [b|z|q|s| | | | | |]; cbn; intros H; try discriminate H; try reflexivity;
+    try (apply Qeq_bool_iff; reflexivity).
   apply String.eqb_refl.
+Qed.
+(* for scalars  bool(v != d)  is the negated ==, and never raises *)
+Lemma ne_truth_scalar v d : is_scalar v = true -> ne_truth v d = Some (negb (val_eqb v d)).
+Proof. destruct v; cbn; intros H; try discriminate H; reflexivity. Qed.
+Lemma ne_true_raises_excl v d : ne_true v d = true -> ne_raises v d = false.
+Proof. unfold ne_true, ne_raises. destruct (ne_truth v d); [reflexivity | discriminate]. Qed.
+
+Lemma existsb_map_c34 {A B} (g : A -> B) (p : B -> bool) l : existsb p (map g l) = existsb (fun a => p (g a)) l.
+Proof. induction l as [|a l IH]; cbn; [reflexivity | now rewrite IH]. Qed.
+Lemma existsb_ext_in_c34 {A} (p q : A -> bool) l : (forall a, In a l -> p a = q a) -> existsb p l = existsb q l.
+Proof.
+  induction l as [|a l IH]; cbn; intros H; [reflexivity|].
+  rewrite (H a) by now left. rewrite IH; [reflexivity|]. intros b Hb. apply H. now right.
 Qed.
 
 (* ------------------------------------------------------------------ which keys count as passed *)
@@ -137,9 +151,9 @@ Proof. apply nodupb_NoDup. vm_compute. reflexivity. Qed.
 Lemma passed_named_char_gen ex k : forall nd,
   NoDup (keys nd) -> (forall k0 d0, In (k0, d0) nd -> lookup k0 named_defaults = Some d0) ->
   mem k (keys (filter (fun kv => negb (mem (fst kv) (keys named_defaults))
-                                 || negb (val_eqb (snd kv) (getd (fst kv) named_defaults VNone)))
+                                 || ne_true (snd kv) (getd (fst kv) named_defaults VNone))
                       (map (fun kd => (fst kd, getd (fst kd) ex (snd kd))) nd)))
-  = match lookup k nd with Some d => negb (val_eqb (getd k ex d) d) | None => false end.
+  = match lookup k nd with Some d => ne_true (getd k ex d) d | None => false end.
 Proof.
   induction nd as [|[k1 d1] nd IH]; intros ND C; [reflexivity|].
   cbn [map filter fst snd lookup].
@@ -150,16 +164,16 @@ Proof.
   specialize (IH ND' (fun k0 d0 H => C k0 d0 (or_intror H))).
   destruct (String.eqb k k1) eqn:E.
   - apply String.eqb_eq in E. subst k1.
-    destruct (val_eqb (getd k ex d1) d1) eqn:V; cbn [negb].
-    + rewrite IH. apply mem_false_In in Hn. apply lookup_none_keys in Hn. now rewrite Hn.
+    destruct (ne_true (getd k ex d1) d1) eqn:V.
     + unfold keys. cbn [map fst mem]. now rewrite seqb_refl.
-  - destruct (val_eqb (getd k1 ex d1) d1); cbn [negb]; [exact IH |].
+    + rewrite IH. apply mem_false_In in Hn. apply lookup_none_keys in Hn. now rewrite Hn.
+  - destruct (ne_true (getd k1 ex d1) d1); [| exact IH].
     unfold keys in *. cbn [map fst mem]. rewrite E. exact IH.
 Qed.
 
 Lemma passed_named_char ex k :
   mem k (keys (passed_named (call_named ex)))
-  = match lookup k named_defaults with Some d => negb (val_eqb (getd k ex d) d) | None => false end.
+  = match lookup k named_defaults with Some d => ne_true (getd k ex d) d | None => false end.
 Proof.
   unfold passed_named, call_named. apply passed_named_char_gen.
   - apply named_defaults_nodup.
@@ -176,7 +190,7 @@ Definition passed_set (ex : dict) : dict := update (passed_named (call_named ex)
 Lemma passed_set_char ex k :
   mem k (keys (passed_set ex))
   = match lookup k named_defaults with
-    | Some d => negb (val_eqb (getd k ex d) d)
+    | Some d => ne_true (getd k ex d) d
     | None => mem k (keys ex)
     end.
 Proof.
@@ -187,37 +201,84 @@ Proof.
 Qed.
 
 Lemma G34_spec ex : G34 ex = true ->
-  forall k d v, lookup k named_defaults = Some d -> lookup k ex = Some v -> val_eqb v d = false.
+  forall k d v, lookup k named_defaults = Some d -> lookup k ex = Some v -> ne_true v d = true.
 Proof.
   unfold G34. rewrite forallb_forall. intros H k d v L E.
   assert (In (k, d) named_defaults) as Hin.
   { clear -L. induction named_defaults as [|[k' d'] l IH]; cbn in *; [discriminate|].
     destruct (String.eqb k k') eqn:Q; [apply String.eqb_eq in Q; inversion L; subst; now left | right; auto]. }
-  specialize (H _ Hin). cbn in H. rewrite E in H. now destruct (val_eqb v d).
+  specialize (H _ Hin). cbn in H. rewrite E in H. exact H.
 Qed.
+
+(* every default of the runpp signature is a scalar: `val != default` never compares two composite values *)
+Lemma named_defaults_scalar k d : lookup k named_defaults = Some d -> is_scalar d = true.
+Proof.
+  intros L.
+  assert (A : forallb (fun kd => is_scalar (snd kd)) named_defaults = true) by (vm_compute; reflexivity).
+  rewrite forallb_forall in A.
+  assert (In (k, d) named_defaults) as Hin.
+  { clear -L. induction named_defaults as [|[k' d'] l IH]; cbn in *; [discriminate|].
+    destruct (String.eqb k k') eqn:Q; [apply String.eqb_eq in Q; inversion L; subst; now left | right; auto]. }
+  exact (A _ Hin).
+Qed.
+Lemma ne_true_default d : is_scalar d = true -> ne_true d d = false.
+Proof. intros S. unfold ne_true. rewrite (ne_truth_scalar _ _ S), (val_eqb_refl _ S). reflexivity. Qed.
+Lemma ne_raises_default d : is_scalar d = true -> ne_raises d d = false.
+Proof. intros S. unfold ne_raises. now rewrite (ne_truth_scalar _ _ S). Qed.
 
 (* under the guard the passed keys are exactly the explicit keys *)
 Lemma passed_set_guard ex k : G34 ex = true -> mem k (keys (passed_set ex)) = mem k (keys ex).
 Proof.
   intros G. rewrite passed_set_char. destruct (lookup k named_defaults) as [d|] eqn:L; [|reflexivity].
   unfold getd. destruct (lookup k ex) as [v|] eqn:E.
-  - rewrite (G34_spec _ G _ _ _ L E). cbn. symmetry. eapply lookup_some_keys; eauto.
-  - rewrite val_eqb_refl. cbn. symmetry. now apply lookup_none_keys.
+  - rewrite (G34_spec _ G _ _ _ L E). symmetry. eapply lookup_some_keys; eauto.
+  - rewrite (ne_true_default _ (named_defaults_scalar _ _ L)). symmetry. now apply lookup_none_keys.
+Qed.
+
+(* under the guard no comparison raises *)
+Lemma passed_raises_char ex :
+  passed_raises (call_named ex)
+  = existsb (fun kd => ne_raises (getd (fst kd) ex (snd kd)) (snd kd)) named_defaults.
+Proof.
+  unfold passed_raises, call_named. rewrite existsb_map_c34. apply existsb_ext_in_c34.
+  intros [k d] Hin. cbn [fst snd].
+  assert (L : lookup k named_defaults = Some d) by (apply lookup_In_NoDup; [apply named_defaults_nodup | exact Hin]).
+  rewrite (lookup_some_keys _ _ _ L). unfold getd at 2. now rewrite L.
+Qed.
+Lemma passed_raises_guard ex : G34 ex = true -> passed_raises (call_named ex) = false.
+Proof.
+  intros G. rewrite passed_raises_char.
+  apply not_true_is_false. intros H. apply existsb_exists in H. destruct H as [[k d] [Hin H]]. cbn [fst snd] in H.
+  assert (L : lookup k named_defaults = Some d) by (apply lookup_In_NoDup; [apply named_defaults_nodup | exact Hin]).
+  unfold getd in H. destruct (lookup k ex) as [v|] eqn:E.
+  - rewrite (ne_true_raises_excl _ _ (G34_spec _ G _ _ _ L E)) in H. discriminate.
+  - rewrite (ne_raises_default _ (named_defaults_scalar _ _ L)) in H. discriminate.
 Qed.
 
 (* ------------------------------------------------------------------ overrule *)
-Lemma overrule_filter stored ex :
-  overrule stored (passed_parameters stored (call_named ex) (call_kwargs ex))
-  = filter (fun kv => negb (mem (fst kv) (keys (passed_set ex)))) stored.
-Proof.
-  unfold passed_parameters, passed_set. destruct stored; cbn [is_empty overrule]; reflexivity.
-Qed.
-
+(* the whole path: ValueError when user options are stored and some comparison raises, otherwise the option code runs
+   with the stored options of the keys that do not count as passed *)
 Lemma runpp_options_unfold f stored ex :
+  runpp_options f stored ex
+  = if negb (is_empty stored) && passed_raises (call_named ex) then Err "ValueError"
+    else init_core f (call_named ex) (call_kwargs ex)
+           (filter (fun kv => negb (mem (fst kv) (keys (passed_set ex)))) stored).
+Proof.
+  unfold runpp_options, init_runpp_options, passed_parameters, passed_set.
+  destruct stored as [|s0 stored]; cbn [is_empty negb andb overrule filter]; [reflexivity|].
+  destruct (passed_raises (call_named ex)); reflexivity.
+Qed.
+Lemma runpp_options_guard f stored ex : G34 ex = true ->
   runpp_options f stored ex
   = init_core f (call_named ex) (call_kwargs ex)
       (filter (fun kv => negb (mem (fst kv) (keys (passed_set ex)))) stored).
-Proof. unfold runpp_options, init_runpp_options. now rewrite overrule_filter. Qed.
+Proof. intros G. rewrite runpp_options_unfold, (passed_raises_guard _ G), andb_false_r. reflexivity. Qed.
+Lemma runpp_options_ok f stored ex o : runpp_options f stored ex = Ok o ->
+  init_core f (call_named ex) (call_kwargs ex)
+      (filter (fun kv => negb (mem (fst kv) (keys (passed_set ex)))) stored) = Ok o.
+Proof.
+  rewrite runpp_options_unfold. destruct (negb (is_empty stored) && passed_raises (call_named ex)); [discriminate | auto].
+Qed.
 
 Lemma filter_ext_key (p q : key -> bool) (d : dict) :
   (forall k, p k = q k) -> filter (fun kv => p (fst kv)) d = filter (fun kv => q (fst kv)) d.
@@ -228,7 +289,7 @@ Theorem explicit_wins_partial : forall f stored explicit,
   G34 explicit = true ->
   runpp_options f stored explicit = runpp_options f (remove_keys (keys explicit) stored) explicit.
 Proof.
-  intros f stored ex G. rewrite !runpp_options_unfold. f_equal.
+  intros f stored ex G. rewrite !(runpp_options_guard _ _ _ G). f_equal.
   unfold remove_keys.
   assert (HP : forall k, (fun k => negb (mem k (keys (passed_set ex)))) k = (fun k => negb (mem k (keys ex))) k)
     by (intros k; cbn beta; now rewrite passed_set_guard).
@@ -258,7 +319,7 @@ Theorem stored_applies_when_not_passed : forall f stored explicit k v o,
   runpp_options f stored explicit = Ok o ->
   lookup k o = Some v.
 Proof.
-  intros f stored ex k v o ND L P H. rewrite runpp_options_unfold in H.
+  intros f stored ex k v o ND L P H. apply runpp_options_ok in H.
   apply init_core_ok in H. destruct H as (cva & vdl & numba & ls & mi & ivm & iva & ->).
   apply lookup_update_in.
   - now apply NoDup_keys_filter.
@@ -269,7 +330,7 @@ Qed.
    default is not counted as passed, and the stored value ends up in net._options *)
 Theorem explicit_default_loses : forall f stored explicit k d v s o,
   NoDup (keys stored) ->
-  lookup k named_defaults = Some d -> lookup k explicit = Some v -> val_eqb v d = true ->
+  lookup k named_defaults = Some d -> lookup k explicit = Some v -> ne_true v d = false ->
   lookup k stored = Some s ->
   runpp_options f stored explicit = Ok o ->
   lookup k o = Some s.
@@ -306,7 +367,7 @@ Theorem explicit_value_visible : forall f stored explicit k v o,
   runpp_options f stored explicit = Ok o ->
   lookup k o = Some v.
 Proof.
-  intros f stored ex k v o PK Le G H. rewrite runpp_options_unfold in H.
+  intros f stored ex k v o PK Le G H. apply runpp_options_ok in H.
   set (ov := filter (fun kv => negb (mem (fst kv) (keys (passed_set ex)))) stored) in *.
   assert (P : mem k (keys (passed_set ex)) = true).
   { rewrite passed_set_char. unfold G34_key in G. rewrite Le in G.
@@ -379,4 +440,65 @@ Proof.
   split; [vm_compute; reflexivity|]. split; [apply nodupb_NoDup; vm_compute; reflexivity|].
   split; [|vm_compute; reflexivity].
   eexists. split; [vm_compute; reflexivity|]. repeat split.
+Qed.
+
+(* ------------------------------------------------------------------ composite values in `val != default` *)
+Definition is_container (v : val) : bool := match v with VL _ | VD _ | VO _ => true | _ => false end.
+(* list / tuple / dict / object: always different from the (scalar) default, never raises -> always "passed" *)
+Lemma container_always_passed v d : is_container v = true -> ne_truth v d = Some true.
+Proof. destruct v; cbn; intros H; try discriminate H; destruct (num_of d); reflexivity. Qed.
+(* array: size 1 -> the element decides; any other size, or a Series -> ValueError *)
+Lemma array_ne_truth l d :
+  ne_truth (VA l) d = match l with [x] => Some (negb (val_eqb x d)) | _ => None end.
+Proof. destruct l as [|x [|y l]]; reflexivity. Qed.
+
+Lemma In_lookup_defaults k d : lookup k named_defaults = Some d -> In (k, d) named_defaults.
+Proof.
+  induction named_defaults as [|[k' d'] l IH]; cbn; [discriminate|].
+  destruct (String.eqb k k') eqn:Q; [apply String.eqb_eq in Q; intros H; inversion H; subst; now left | right; auto].
+Qed.
+
+(* a named argument whose comparison raises makes the whole runpp call raise ValueError - but only when user options
+   are stored (without stored options the comparison is never evaluated) *)
+Theorem raising_value_raises : forall f stored explicit k d v,
+  stored <> [] -> lookup k named_defaults = Some d -> lookup k explicit = Some v -> ne_raises v d = true ->
+  runpp_options f stored explicit = Err "ValueError".
+Proof.
+  intros f stored ex k d v NE L E R. rewrite runpp_options_unfold.
+  assert (P : passed_raises (call_named ex) = true).
+  { rewrite passed_raises_char. apply existsb_exists. exists (k, d). split; [now apply In_lookup_defaults|].
+    cbn [fst snd]. unfold getd. now rewrite E. }
+  rewrite P. destruct stored; [congruence | reflexivity].
+Qed.
+Theorem no_stored_no_comparison : forall f explicit,
+  runpp_options f [] explicit = init_core f (call_named explicit) (call_kwargs explicit) [].
+Proof. intros. rewrite runpp_options_unfold. reflexivity. Qed.
+
+(* explicit wins for every container-valued or differing value: the guard seen from the value side *)
+Lemma G34_intro ex :
+  (forall k d v, lookup k named_defaults = Some d -> lookup k ex = Some v -> ne_truth v d = Some true) -> G34 ex = true.
+Proof.
+  intros H. unfold G34. apply forallb_forall. intros [k d] Hin. cbn [fst snd].
+  destruct (lookup k ex) as [v|] eqn:E; [|reflexivity].
+  assert (L : lookup k named_defaults = Some d) by (apply lookup_In_NoDup; [apply named_defaults_nodup | exact Hin]).
+  unfold ne_true. now rewrite (H _ _ _ L E).
+Qed.
+
+Definition stored_c : dict := [("tolerance_mva", VQ (1 # 1000)); ("recycle", VD [("bus_pq", VB true)])].
+Example composite_nonvacuous :
+  (* size-2 array for a named argument: ValueError with stored options, plain copy without *)
+  runpp_options facts0 stored_c [("tolerance_mva", VA [VQ (1 # 100); VQ (1 # 10)])] = Err "ValueError" /\
+  (exists o, runpp_options facts0 [] [("tolerance_mva", VA [VQ (1 # 100); VQ (1 # 10)])] = Ok o
+             /\ lookup "tolerance_mva" o = Some (VA [VQ (1 # 100); VQ (1 # 10)])) /\
+  (* size-1 array equal to the default: not passed, the stored value wins (the recorded defect, array form) *)
+  (exists o, runpp_options facts0 stored_c [("tolerance_mva", VA [VQ tol_default])] = Ok o
+             /\ lookup "tolerance_mva" o = Some (VQ (1 # 1000))) /\
+  (* list value: passed; explicit dict-valued kwargs option beats the stored dict *)
+  (exists o, runpp_options facts0 stored_c [("tolerance_mva", VL [VQ tol_default]); ("recycle", VD [])] = Ok o
+             /\ lookup "tolerance_mva" o = Some (VL [VQ tol_default]) /\ lookup "recycle" o = Some (VD [])).
+Proof.
+  split; [vm_compute; reflexivity|].
+  split; [eexists; split; vm_compute; reflexivity|].
+  split; [eexists; split; vm_compute; reflexivity|].
+  eexists; split; [vm_compute; reflexivity|]. split; vm_compute; reflexivity.
 Qed.
